@@ -259,6 +259,9 @@ func gcmCase(c *ev.Case) {
 			return
 		}
 		c.Add("gcm_spot_tampers_rejected", 1)
+		if nonceLen != 12 {
+			c.Add("gcm_spot_tampers_rejected_nonstandard_nonce", 1)
+		}
 	}
 	c.Distinct(ev.Mix(4, uint64(klen), uint64(n), ev.HashBytes(m.key), ev.HashBytes(m.nonce), ev.HashBytes(m.aad), ev.HashBytes(m.pt)))
 	if wantSample(c, 1511) {
